@@ -167,7 +167,8 @@ class MessagePackDocument(HierDictDocument):
             try:
                 ctx.in_document = msgpack.unpackb(b''.join(ctx.in_string))
             except ValueError as e:
-                raise MessagePackDecodeError(' '.join(e.args))
+                # e.args are not always strings (see msgpack.ExtraData)
+                raise MessagePackDecodeError(str(e))
 
     def gen_method_request_string(self, ctx):
         """Uses information in context object to return a method_request_string.
@@ -232,7 +233,8 @@ class MessagePackRpc(MessagePackDocument):
 
 
         except ValueError as e:
-            raise MessagePackDecodeError(''.join(e.args))
+            # e.args are not always strings (see msgpack.ExtraData)
+            raise MessagePackDecodeError(str(e))
 
         try:
             len(ctx.in_document)
@@ -257,17 +259,22 @@ class MessagePackRpc(MessagePackDocument):
 
         if not six.PY2:
             if isinstance(msgname_or_error, bytes):
-                msgname_or_error = msgname_or_error.decode(
+                try:
+                    msgname_or_error = msgname_or_error.decode(
                                                    self.default_string_encoding)
+                except UnicodeDecodeError:
+                    raise MessagePackDecodeError("Invalid method name")
 
         if msgtype == MessagePackRpc.MSGPACK_REQUEST:
-            assert message == MessagePackRpc.REQUEST
+            if message != MessagePackRpc.REQUEST:
+                raise MessagePackDecodeError("Unexpected request message")
 
         elif msgtype == MessagePackRpc.MSGPACK_RESPONSE:
-            assert message == MessagePackRpc.RESPONSE
+            if message != MessagePackRpc.RESPONSE:
+                raise MessagePackDecodeError("Unexpected response message")
 
         elif msgtype == MessagePackRpc.MSGPACK_NOTIFY:
-            raise NotImplementedError()
+            raise MessagePackDecodeError("Notifications are not supported")
 
         else:
             raise MessagePackDecodeError("Unknown message type %r" % msgtype)
